@@ -554,7 +554,9 @@ func genEthTx(t *rapid.T, st *genState) TxSpec {
 	}
 
 	createsContract := false
-	target := pick(t, "target", 18, 20, 20, 5, 7, 16, 12)
+	// (rapid favours the ends of a range: the first and the last alternative get extra weight)
+	order := []int{2, 0, 5, 3, 4, 6, 1}
+	target := order[pick(t, "target", 30, 16, 16, 5, 7, 10, 16)]
 	if target == 2 && len(st.contracts) == 0 {
 		target = 0
 	}
@@ -781,7 +783,7 @@ func genTx(t *rapid.T, st *genState) TxSpec {
 
 func genCase(t *rapid.T) Case {
 	var c Case
-	c.Routines = rapid.SampledFrom([]int{0, 1, 2, 3, 8, 16}).Draw(t, "routines")
+	c.Routines = rapid.SampledFrom([]int{1, 2, 3, 4, 8, 16, 0}).Draw(t, "routines")
 	st := &genState{excluded: map[string]bool{}}
 	// shapes behind listed open findings are left out of 9 cases in 10 so that the search goes
 	// on behind them; the tenth keeps hitting the finding.
